@@ -147,6 +147,14 @@ fn leaf_indexes(rows: usize, layer_domain: usize, fold: usize, parts: usize) -> 
     winter_fri::utils::map_positions_to_indexes(&all, layer_domain, fold, parts)
 }
 
+thread_local! {
+    /// when set, the hand-written prover sends (and commits to) the remainder obtained by reading the last layer as
+    /// the evaluations of a polynomial over the first half of a domain of TWICE the size, zero-padded to twice the
+    /// regular number of coefficients (an adversary betting on a verifier that derives the evaluation domain of the
+    /// remainder from the remainder's own length)
+    pub static STRETCHED_REMAINDER: std::cell::Cell<bool> = const { std::cell::Cell::new(false) };
+}
+
 /// commit phase and query phase written out by hand for folding factor N; rows of every layer are
 /// stored at the leaves of the layout with 2^log_parts partitions
 pub fn manual_prove_n<B: Fld, E: FieldElement<BaseField = B>, H: ElementHasher<BaseField = B>, const N: usize>(
@@ -185,6 +193,19 @@ pub fn manual_prove_n<B: Fld, E: FieldElement<BaseField = B>, H: ElementHasher<B
     let mut rem = cur.clone();
     fft::interpolate_poly_with_offset(&mut rem, &inv_twiddles, B::GENERATOR);
     rem.truncate((cur.len() / options.blowup_factor()).max(1));
+    if STRETCHED_REMAINDER.with(|c| c.get()) {
+        let m = cur.len();
+        let w = B::get_root_of_unity((2 * m).ilog2());
+        let xs: Vec<E> = (0..m).map(|p| E::from(B::GENERATOR * w.exp_vartime(((p as u64) as u32).into()))).collect();
+        let mut r = winter_math::polynom::interpolate(&xs, &cur, false);
+        let keep = rem.len();
+        if r[keep..].iter().any(|c| *c != E::ZERO) {
+            return None;
+        }
+        r.truncate(keep);
+        r.resize(2 * keep, E::ZERO);
+        rem = r;
+    }
     commitments.push(H::hash_elements(&rem));
     // query phase
     let mut bytes = vec![layers as u8];
@@ -233,7 +254,20 @@ pub fn manual_prove<B: Fld, E: FieldElement<BaseField = B>, H: ElementHasher<Bas
 pub fn unfolded_function<B: Fld, E: FieldElement<BaseField = B>>(rng: &mut crate::prng::Rng, domain: usize, options: &FriOptions, log_parts: u8, coord: RowCoord, rem_coeffs: usize) -> Option<Vec<E>> {
     fn go<B: Fld, E: FieldElement<BaseField = B>, const N: usize>(rng: &mut crate::prng::Rng, domain: usize, layers: usize, parts: usize, coord: RowCoord, rem_coeffs: usize) -> Option<Vec<E>> {
         let last = domain / N.pow(layers as u32);
-        let mut level: Vec<Vec<E>> = (0..N.pow(layers as u32)).map(|_| evaluate::<B, E>(&crate::gen::rand_vec::<B, E>(rng, rem_coeffs), last)).collect();
+        // stretched variant: the small polynomials are evaluated over the first half of a domain of twice the size
+        let stretched = STRETCHED_REMAINDER.with(|c| c.get());
+        let mut level: Vec<Vec<E>> = (0..N.pow(layers as u32))
+            .map(|_| {
+                let poly = crate::gen::rand_vec::<B, E>(rng, rem_coeffs);
+                if stretched {
+                    let mut v = evaluate::<B, E>(&poly, 2 * last);
+                    v.truncate(last);
+                    v
+                } else {
+                    evaluate::<B, E>(&poly, last)
+                }
+            })
+            .collect();
         let mut size = last;
         for _ in 0..layers {
             let rows = size;
